@@ -315,6 +315,7 @@ def gen_program(tape, cfg):
         if d in (1, 2, 3, 4) and not cfg.skip_decorators:
             d = 0
         empty = d in (1, 2, 3, 4) and t.chance("program", 1, 5, "empty-skip-reason")
+        odd = d in (1, 2, 3, 4) and not empty and cfg.odd_skip_reasons and t.chance("program", 1, 5, "decorator-reason-not-a-str")
         if d == 1:
             prog["class_skip"] = "" if empty else "class-skip-" + g.marker()
         elif d == 2:
@@ -325,6 +326,13 @@ def gen_program(tape, cfg):
             prog["method_skip"] = ["skipUnless", "" if empty else "method-skipUnless-" + g.marker()]
         elif d in (5, 6):
             prog["xfail_decorator"] = True
+        if odd:
+            # a reason that is not a str but can be cast to one (an int here)
+            n = 1000 + t.draw("program", 9, "reason-int")
+            if prog["class_skip"] is not None:
+                prog["class_skip"] = n
+            else:
+                prog["method_skip"][1] = n
     if cfg.handlers and "user" in cfg.kinds:
         nh = t.draw("program", 3, "n-handlers")
         names = sorted(USER_CLASSES)
@@ -345,6 +353,7 @@ def gen_program(tape, cfg):
     # a result object that happens to be falsy (a sized container of its events, still empty)
     prog["falsy_result"] = t.chance("program", 1, 12, "result-object-is-falsy")
     # a second test object of the same class exists (configured, never run)
+    prog["returns"] = t.weighted("program", [(10, None), (1, "zero"), (1, "any")], "stage-return-value")
     prog["sibling"] = t.weighted("program", [(8, None), (1, "before"), (1, "after")], "sibling-test-object")
     return prog
 
@@ -618,7 +627,9 @@ def run_ops(case, env, ops):
         elif what == "cleanup":
             cid = op[1]
             # positional and keyword arguments both have to reach the cleanup
-            if oid % 2:
+            if oid % 3 == 2:
+                case.addCleanup(_cleanup_kw, fn=(case, env, cid))
+            elif oid % 2:
                 case.addCleanup(_cleanup_body, case, env, cid=cid)
             else:
                 case.addCleanup(_cleanup_body, case, env, cid)
@@ -662,6 +673,8 @@ def run_ops(case, env, ops):
             fx = ScriptedFixture(fid, prog["fixtures"][fid], env)
             env.fixture_objs[fid] = fx
             case.useFixture(fx)
+            # something the fixture only learns while the test uses it
+            fx.addDetail("fxlate", _content.Content(BIN_CT, lambda fid=fid: [b"LATE|" + fid.encode()]))
         elif what == "onexc":
             hid = op[1]
 
@@ -688,6 +701,32 @@ def run_ops(case, env, ops):
 def _cleanup_body(case, env, cid):
     env.world.xlog("cleanup", cid)
     run_ops(case, env, env.prog["cleanups"][cid])
+    return _RETURNS[env.prog.get("returns")]
+
+
+def _cleanup_kw(fn=None):
+    """A cleanup that takes its argument under a keyword the runner happens to use internally."""
+    return _cleanup_body(*fn)
+
+
+class _EqualToAll:
+    """What unittest.mock.ANY is: equal to everything."""
+
+    def __eq__(self, other):
+        return True
+
+    def __ne__(self, other):
+        return False
+
+    __hash__ = object.__hash__
+
+    def __repr__(self):
+        return "<ANY>"
+
+
+# what the scripted stages and cleanups *return* (they are not supposed to return anything, and nothing
+# about a run may depend on it)
+_RETURNS = {None: None, "zero": 0, "any": _EqualToAll()}
 
 
 _REPORT = {
@@ -699,21 +738,26 @@ def build_case(prog, env, run_test_with=None):
     """Build a fresh TestCase instance for the program."""
     stages = prog["stages"]
 
+    ret = _RETURNS[prog.get("returns")]
+
     class Scripted(testtools.TestCase):
         def setUp(self):
             run_ops(self, env, stages["setUp_pre"])
             super().setUp()
             env.world.xlog("upcall", "setUp")
             run_ops(self, env, stages["setUp_post"])
+            return ret
 
         def tearDown(self):
             run_ops(self, env, stages["tearDown_pre"])
             super().tearDown()
             env.world.xlog("upcall", "tearDown")
             run_ops(self, env, stages["tearDown_post"])
+            return ret
 
         def test_it(self):
             run_ops(self, env, stages["test"])
+            return ret
 
     if run_test_with is not None:
         Scripted.run_tests_with = run_test_with
@@ -910,6 +954,7 @@ class Model:
             parts.append(Raised("setuperror", None, stage, handlers=h, part=True))
             self.R.extend(parts)
             raise _StageAbort()
+        self.fx_payloads.append((fid, "fxlate", b"LATE|" + fid.encode()))
         self.stack.append(("fxclean", fid))
         self.stack.append(("fxgather", fid))
 
@@ -923,10 +968,10 @@ class Model:
     def _run(self):
         prog = self.prog
         if prog["class_skip"] is not None:
-            self.skip_decorated = prog["class_skip"]
+            self.skip_decorated = str(prog["class_skip"])
             return
         if prog["method_skip"]:
-            self.skip_decorated = prog["method_skip"][1]
+            self.skip_decorated = str(prog["method_skip"][1])
             return
         st = prog["stages"]
         ok = self._stage(st["setUp_pre"], "setUp")
